@@ -7,6 +7,7 @@ mod rng;
 mod sx;
 mod c01;
 mod c02;
+mod c06;
 mod c07;
 
 use out::Out;
@@ -49,6 +50,7 @@ fn main() {
             match stream.as_str() {
                 "c01" => c01::run(&args, &mut out),
                 "c02" => c02::run(&args, &mut out),
+                "c06" => c06::run(&args, &mut out),
                 "c07" => c07::run(&args, &mut out),
                 s => { eprintln!("unknown stream {s}"); std::process::exit(2); }
             }
